@@ -1538,20 +1538,38 @@ class FortranWriter(LanguageWriter):
                 if (node is parent.children[1] or
                         (parent_fort_oper == "**" and fort_oper == "-")):
                     return f"({fort_oper}{content})"
-                grandparent = parent.parent
                 # Case: 'a op1 (-b) op2 c'
                 # and precedence(op2) > precedence(op1)
                 # implying that '(-b) op2 c' is not parenthesized.
-                if isinstance(grandparent, BinaryOperation):
-                    grandparent_fort_oper = self.get_operator(
-                        grandparent.operator
-                    )
-                    if (parent is grandparent.children[1]
-                        and node is parent.children[0]
-                        and (precedence(parent_fort_oper)
-                             > precedence(grandparent_fort_oper))
-                            and fort_oper == "-"):
-                        return f"({fort_oper}{content})"
+                # This node is the left-most operand of 'parent'. Walk up
+                # through any further ancestors of which it is also the
+                # left-most operand (and that are written without
+                # parentheses) until we find one that directly follows
+                # an operator, e.g. 'a - (-b) * c * d' or '-((-b) * c)'.
+                cursor = parent
+                while fort_oper in ["-", "+"]:
+                    ancestor = cursor.parent
+                    if not isinstance(ancestor, Operation):
+                        break
+                    cursor_prec = precedence(
+                        self.get_operator(cursor.operator))
+                    ancestor_prec = precedence(
+                        self.get_operator(ancestor.operator))
+                    if (isinstance(ancestor, UnaryOperation) or
+                            cursor is ancestor.children[1]):
+                        # 'cursor' follows an operator. If it is not going
+                        # to be parenthesized then this node must be.
+                        if cursor_prec > ancestor_prec:
+                            return f"({fort_oper}{content})"
+                        break
+                    if cursor_prec <= ancestor_prec:
+                        # 'cursor' will be parenthesized (or has the same
+                        # precedence as the operator that follows it).
+                        if cursor_prec < ancestor_prec or (
+                                ancestor.operator ==
+                                BinaryOperation.Operator.POW):
+                            break
+                    cursor = ancestor
             return f"{fort_oper}{content}"
 
         except KeyError as error:
